@@ -162,4 +162,28 @@ def hsSession (args : List String) : String :=
   | _ => "bad-args"
 
 
+/-- the `dl` stream: do the timers of a run loop that was left alone agree with the generated constants?
+args: number of retransmissions seen, last time (ms since the loop started) the state was still seen Handshaking,
+first time it was seen Failed (`-` = not within the harness's patience).  Ticks strictly before the deadline
+must all have fired; the one due at the same instant may or may not have (`select!`).  50 ms of slack for
+the harness's own clock reading. -/
+def deadlineCheck (args : List String) : String :=
+  let T := dtlsHandshakeTimeoutSecs * 1000
+  let first := dtlsRetransmitFirstSecs * 1000
+  let P := dtlsRetransmitPeriodSecs * 1000
+  match args with
+  | [n, lastH, firstF] =>
+    match n.toNat?, lastH.toNat?, firstF.toNat? with
+    | some n, some h, some f =>
+      let sure := if T ≤ first then 0 else (T - 1 - first) / P + 1
+      let maybe := if T < first then 0 else (T - first) / P + 1
+      if h > T + 50 then "late:still-handshaking-after-the-deadline"
+      else if f + 50 < T then "early:failed-before-the-deadline"
+      else if n < sure then s!"ticks:fewer-than-{sure}"
+      else if n > maybe then s!"ticks:more-than-{maybe}"
+      else "ok"
+    | some _, some _, none => "late:never-failed"
+    | _, _, _ => "bad-args"
+  | _ => "bad-args"
+
 end RtcModel.Drv.DtlsStream
